@@ -213,8 +213,9 @@ func bipSign(bc bipCtx, src io.Reader) (string, J) {
 // bipSignShort: the 32 auxiliary bytes are delivered ONE BYTE PER Read call (a legitimate io.Reader: buffered, non-blocking
 // and network-backed sources do that); the signer must still consume all 32 of them
 func bipSignShort(bc bipCtx, aux32 []byte) (string, J) {
-	in := J{"sk": hx(bc.sk), "m": hx(bc.m), "aux": hx(aux32)}
-	rd := iotest.OneByteReader(bytes.NewReader(append(append([]byte{}, aux32...), make([]byte, 64)...)))
+	stream := append(append([]byte{}, aux32...), make([]byte, 64)...)
+	in := J{"sk": hx(bc.sk), "m": hx(bc.m), "auxstream": hx(stream), "chunk": 1}
+	rd := iotest.OneByteReader(bytes.NewReader(stream))
 	sig, err := taproot.SecretKey(bc.sk).Sign(rd, bc.m)
 	if err != nil || len(sig) != 64 {
 		return "", in
